@@ -45,7 +45,9 @@ partial def parseDesc (d : String) : Option Msg :=
     | _ => none
   else if d.startsWith "news(" then (dropSuffixChar ((d.drop 5).toString)).toInt?.map Msg.news
   else if d.startsWith "badmsg(" then (dropSuffixChar ((d.drop 7).toString)).toNat?.map Msg.badmsg
-  else if d == "pong" || d == "ack" || d == "cont()" then some .quiet
+  else if d == "pong" || d == "ack" then some .quiet
+  -- the empty container: ignored like a pong — unless it is nested too deep, then refused like any container
+  else if d == "cont()" then some (.cont [])
   else if d == "deep" then some (.cont [])   -- levels of a very deep message the trace does not spell out
   else if d == "upd" || d == "unk" || d == "trunc" || d == "gzbad" then some .odd
   -- a well-formed service request / informational message the client has no use for: reported, nothing else
@@ -63,6 +65,7 @@ inductive Parsed where
   | ev (e : Ev)
   | skip
   | warn
+  | junk           -- J:<hex>: a transport-level frame that is no sealed message (error code, too short, other key id): one warning
   | plain          -- an unencrypted frame: a key exchange on a resumed session
   | sendFault                  -- injected fault: the write of a caller's request failed (the request never entered the machine)
   | ackFault (ids : List Nat)  -- injected fault: the write of the acknowledgement naming these ids failed
@@ -94,6 +97,7 @@ def parseEvent (e : String) : Parsed :=
   -- the client's own keepalive ping (one per minute of a connection's life): not a caller's request; the Go oracle
   -- checks its msg_id and seq_no against the rest of the outgoing stream
   | ["K", _] => .skip
+  | ["J", _] => .junk
   -- conn-broken: the connection could not be read any further and is replaced (the consequence of a lost
   -- connection, event C, like "reconnect")
   | ["V", cls] => if cls == "reconnect" || cls == "ackfail" || cls == "storefail" || cls == "conn-broken" then .skip else .warn
@@ -153,6 +157,7 @@ def replay (trace : String) : String :=
       match parseEvent e with
       | .skip => go s rest (k + 1) warns failed
       | .warn => go s rest (k + 1) (warns + 1) failed
+      | .junk => go (warnStep s) rest (k + 1) warns failed
       | .sendFault => go s rest (k + 1) warns (failed + 1)
       | .plain => s!"stuck@{k}:plaintext-frame-on-resumed-session"
       | .bad w => s!"unparsed@{k}:{w}"
